@@ -168,10 +168,92 @@ PROPS = {
         "closure": ['AutosarVerif.Properties.C11', 'AutosarVerif.Lemmas.WorldOps'],
         "scenario": "world",
         "scenario_args": ['--prop', 'C11'],
+        "extra_scenarios": [("merge", [])],
         "rule": 'operation histories on the real library (PROTOCOL.md): `reset`, a template build (packages from the name universe a a1 a10 a1b a2 pkg1 pkg10 b, nested packages, ELEMENTS with several kinds, mixed content, references to existing / dangling / future paths), then 20-60 (thorough up to 200) weighted random requests with mostly-valid and deliberately invalid arguments (stale handles, wrong kinds, bad positions, duplicates, descendants as destination), `dump` after every state-changing request; kinds basic / sort / copy / files. Every request is answered by the real library and by the Lean world model and compared verbatim (dumps include every parent field, attribute, value, comment, local file set, the whole path index and every key of the reverse reference map via hook H1); a history is cut at the first request kind the model does not cover (file-set operations, moves between models) — counted in coverage.correspondence. The direct oracle of the property is evaluated on the real library after every request; failing histories are shrunk. Non-trivial = distinct request line.' + " Oracle: " + 'dump before = dump after for every state-changing request that answers an error.',
         "trusted_base": ["hand model of element.rs / elementraw.rs / autosarmodel.rs (Model/World*.lean), tied by the correspondence run",
                          "harness/src/world.rs: interpreter, canonical dump, oracles, shrinking"],
         "assumptions": ["one model per history in the modelled part; sort comparator assumed a total preorder (C14)"],
+        "timeout": 3600,
+    },
+    "C01": {
+        "compare_with_model": False,
+        "property_module": "AutosarVerif.Properties.C01",
+        "modules": ["AutosarVerif.Properties.C01"],
+        "closure": ['AutosarVerif.Properties.C01', 'AutosarVerif.Lemmas.CData', 'AutosarVerif.Lemmas.Lexer', 'AutosarVerif.Lemmas.ParserMonad'],
+        "scenario": 'docs',
+        "scenario_args": ['--prop', 'C01'],
+        "rule": "documents: (1) specification walk through the editing API per version (quick: 3 versions by seed + LATEST; thorough: all 21), serialized by the library, and random slices of it; (2) grammar-directed documents written as text by the scenario's own writer (all five value kinds, mixed content, entities and numeric references in values and attributes, comments in every position, both quote styles with TAB/CR/LF, white space, BOM); (3) 1-3 injected defects of 20 documented classes per document, each verified against the specification API. Every document through strict and lenient loading. Oracles on the real library: load-serialize-load fixpoint (structure and bytes), independent XML reader vs loaded model, the three strict/lenient agreement rules, no defect class accepted by strict loading. Non-trivial = distinct document (request line carries kind and hash).",
+        "trusted_base": ['hand models of escape_text / unescape_string / lexer.rs / parse_character_data, tied by the C20 and C02 correspondence runs', 'harness/src/docs.rs: generators, independent XML reader, structural comparison'],
+        "assumptions": ['the element-level parser and serializer are exercised on the real library only (no Lean model yet)'],
+        "timeout": 3600,
+    },
+    "C08": {
+        "compare_with_model": False,
+        "property_module": "AutosarVerif.Properties.C08",
+        "modules": ["AutosarVerif.Properties.C08"],
+        "closure": ['AutosarVerif.Properties.C08', 'AutosarVerif.Lemmas.ParserMonad'],
+        "scenario": 'docs',
+        "scenario_args": ['--prop', 'C08'],
+        "rule": "documents: (1) specification walk through the editing API per version (quick: 3 versions by seed + LATEST; thorough: all 21), serialized by the library, and random slices of it; (2) grammar-directed documents written as text by the scenario's own writer (all five value kinds, mixed content, entities and numeric references in values and attributes, comments in every position, both quote styles with TAB/CR/LF, white space, BOM); (3) 1-3 injected defects of 20 documented classes per document, each verified against the specification API. Every document through strict and lenient loading. Oracles on the real library: load-serialize-load fixpoint (structure and bytes), independent XML reader vs loaded model, the three strict/lenient agreement rules, no defect class accepted by strict loading. Non-trivial = distinct document (request line carries kind and hash).",
+        "trusted_base": ['the parser monad (optional_error as the only reader of `strict`) is a reading of parser.rs checked by inspection and by the agreement oracle on the real library', 'harness/src/docs.rs'],
+        "assumptions": ['element-level parsing is not written in the monad yet'],
+        "timeout": 3600,
+    },
+    "C10": {
+        "property_module": "AutosarVerif.Properties.C10",
+        "modules": ["AutosarVerif.Properties.C10"],
+        "closure": ['AutosarVerif.Properties.C10', 'AutosarVerif.Lemmas.Files'],
+        "scenario": 'world',
+        "scenario_args": ['--prop', 'C10', '--kind', 'files'],
+        "extra_scenarios": [("merge", [])],
+        "rule": "histories of kind `files` (2-4 files; add_to_file / remove_from_file / remove_file mixed with editing requests) as described for the world scenario; oracle on the real library: local sets within the parent's effective set within the model's files, every reachable element in some file, every file's serialize() loads on its own, remove_file removes exactly the elements of that file alone with their index entries and leaves other files' text unchanged. Model comparison up to the first file-set request of each history.",
+        "trusted_base": ['hand model of element.rs / elementraw.rs / autosarmodel.rs (Model/World*.lean), tied by the correspondence run', 'harness/src/world.rs: interpreter, canonical dump, oracles, shrinking'],
+        "assumptions": ['file-set operations are not in the Lean model yet'],
+        "timeout": 3600,
+    },
+    "C12": {
+        "property_module": "AutosarVerif.Properties.C12",
+        "modules": ["AutosarVerif.Properties.C12"],
+        "closure": ['AutosarVerif.Properties.C12', 'AutosarVerif.Lemmas.Lexer', 'AutosarVerif.Lemmas.WorldOps'],
+        "scenario": 'world',
+        "scenario_args": ['--prop', 'C12'],
+        "rule": 'all history kinds of the world scenario with catch_unwind around every request and a per-history watchdog; oracle: no answer is `panic`, `timeout` or `err ParentElementLocked`; handles are drawn from live, removed and foreign objects.',
+        "trusted_base": ['hand model of element.rs / elementraw.rs / autosarmodel.rs (Model/World*.lean), tied by the correspondence run', 'harness/src/world.rs: interpreter, canonical dump, oracles, shrinking'],
+        "assumptions": ['stack depth and real-time behaviour are outside the model'],
+        "timeout": 3600,
+    },
+    "C13": {
+        "property_module": "AutosarVerif.Properties.C13",
+        "modules": ["AutosarVerif.Properties.C13"],
+        "closure": ['AutosarVerif.Properties.C13', 'AutosarVerif.Lemmas.Files', 'AutosarVerif.Lemmas.WorldOps'],
+        "scenario": 'world',
+        "scenario_args": ['--prop', 'C13', '--kind', 'copy'],
+        "rule": 'histories of kind `copy` (deep copies within a parent, to other parents, into a second model with a file of another version, then edits on both sides; duplicate()); oracle: serialization of copy = source up to the name suffix, copied identifiables/references found in the destination, source unchanged, independence after edits, duplicate() per-file texts equal.',
+        "trusted_base": ['hand model of element.rs / elementraw.rs / autosarmodel.rs (Model/World*.lean), tied by the correspondence run', 'harness/src/world.rs: interpreter, canonical dump, oracles, shrinking'],
+        "assumptions": ['copies into another model are compared with the Lean model only for the same-model part'],
+        "timeout": 3600,
+    },
+    "C14": {
+        "property_module": "AutosarVerif.Properties.C14",
+        "modules": ["AutosarVerif.Properties.C14"],
+        "closure": ['AutosarVerif.Properties.C14', 'AutosarVerif.Lemmas.Sort'],
+        "scenario": 'world',
+        "scenario_args": ['--prop', 'C14', '--kind', 'sort'],
+        "rule": 'histories of kind `sort` (sibling sets with names a2 a10 a1b a1, INDEX children, equal names in different parents, BSW values keyed by DEFINITION-REF, ordered containers; then sort); oracle: multiset of children, attributes, comments, index and reference map unchanged, sort twice = once, same siblings inserted in another order sort to the same serialization. `sort` requests are answered by the Lean model (sortNode) and compared.',
+        "trusted_base": ['hand model of element.rs / elementraw.rs / autosarmodel.rs (Model/World*.lean), tied by the correspondence run', 'harness/src/world.rs: interpreter, canonical dump, oracles, shrinking'],
+        "assumptions": ['Element ordering assumed a total preorder (proved consequences need it)'],
+        "timeout": 3600,
+    },
+    "C09": {
+        "compare_with_model": False,
+        "property_module": "AutosarVerif.Properties.C09",
+        "modules": ["AutosarVerif.Properties.C09"],
+        "closure": ['AutosarVerif.Properties.C09', 'AutosarVerif.Lemmas.Files'],
+        "scenario": 'merge',
+        "scenario_args": [],
+        "rule": "random master models built through the API, split over 2-4 files at splittable points (shared and exclusive packages, permuted siblings, mixed versions, BSW containers), documents written by the scenario's own writer; ALL load orders; oracles: union = master (after sort), attribution = split, per-file serialize/reload, order independence, conflicting files rejected with no effect, remove_file exactness.",
+        "trusted_base": ['harness/src/merge.rs'],
+        "assumptions": ['the merge algorithm itself has no Lean model; the Lean side proves properties of effective file membership'],
         "timeout": 3600,
     },
     "C20": {
